@@ -692,22 +692,33 @@ def _observe(w, case, k, obs, viol):
             viol.append(f"raise: observation {kind} {x} on graph {g} after op {k} raised {type(e).__name__}: {e}")
 
 
-def _iter_admissible(lines):
+def _iter_admissible(lines, expect):
     """ask the compiled model whether every triple the real generators yielded is a possible yield of the
-    iterator machine (matches the pattern and passes the has-context test at that moment / is in the snapshot)"""
+    iterator machine (matches the pattern and passes the has-context test at that moment / is in the snapshot).
+    The same replay drives the CONCRETE generator machine (`NGen`: level-by-level key copies, insertion-ordered
+    dictionaries) with one `gnext` per real next(); `expect[i]` is what the real generator did at line i.  Agreement
+    is counted (stats gen_exact / gen_diverge) but a disagreement is not an alarm: the statement allows any sound
+    iteration discipline and order, only a RAISE predicted by the machine (`error`) is reported.
+    returns (observation, exact, diverge)"""
     exe = core.driver_path(sys.modules[__name__])
     try:
         p = subprocess.run([exe], input="\n".join(lines) + "\n", stdout=subprocess.PIPE, stderr=subprocess.PIPE,
                            text=True, timeout=60, cwd=core.LEAN)
     except Exception as e:  # noqa: BLE001
-        return "iter-adm:no-driver " + type(e).__name__
+        return "iter-adm:no-driver " + type(e).__name__, 0, 0
     out = p.stdout.split("\n")
-    for ln, o in zip(lines, out):
+    exact = diverge = 0
+    for i, (ln, o) in enumerate(zip(lines, out)):
         if ln.startswith("iyield") and o != "adm":
-            return "iter-adm:" + o + " " + ln
+            return "iter-adm:" + o + " " + ln, exact, diverge
         if o in ("bad-op", "error"):
-            return "iter-adm:" + o + " " + ln
-    return "iter-adm:ok"
+            return "iter-adm:" + o + " " + ln, exact, diverge
+        if ln.startswith("gnext"):
+            if o == expect.get(i):
+                exact += 1
+            else:
+                diverge += 1
+    return "iter-adm:ok", exact, diverge
 
 
 def run_impl(case):
@@ -715,6 +726,7 @@ def run_impl(case):
     obs, viol, stats = [], [], {"ops": len(case["ops"]), "store_" + case["store"]: 1}
     gens = {}      # k -> [generator, g, pattern, history of graph g's content since the generator began | None]
     adm_lines = ["reset"]
+    adm_expect = {}   # index of a `gnext` line -> what the real generator did ("s,p,o" | "stop" | "raise")
     shared = False
     for k, op in enumerate(case["ops"]):
         kind = op[0]
@@ -731,15 +743,20 @@ def run_impl(case):
                 if hist is None:
                     ent[3] = hist = [set(w.sets[g])]
                     adm_lines.append(f"iopen {op[1]} {g} " + " ".join(_w(x) for x in pt))
+                    adm_lines.append(f"gopen {op[1]} {g} " + " ".join(_w(x) for x in pt))
                 for _ in range(op[2]):
+                    adm_lines.append(f"gnext {op[1]}")   # the concrete generator machine makes the same next()
                     try:
                         t = _ids(next(gen))
                     except StopIteration:
+                        adm_expect[len(adm_lines) - 1] = "stop"
                         break
                     except Exception as e:  # noqa: BLE001
+                        adm_expect[len(adm_lines) - 1] = "raise"
                         line = "raise:" + type(e).__name__
                         viol.append(f"iter-raise: next() of generator {op[1]} raised {type(e).__name__}: {e}")
                         break
+                    adm_expect[len(adm_lines) - 1] = f"{t[0]},{t[1]},{t[2]}"
                     stats["yields"] = stats.get("yields", 0) + 1
                     adm_lines.append(f"iyield {op[1]} {t[0]} {t[1]} {t[2]}")
                     if not _matches(pt, t):
@@ -763,9 +780,12 @@ def run_impl(case):
         if case["store"] == "mem" and not shared:
             shared = bool((w.sets[0] & w.sets[1]) | (w.sets[0] & w.sets[2]) | (w.sets[1] & w.sets[2]))
         _observe(w, case, k, obs, viol)
-    if any(l.startswith("iyield") for l in adm_lines):
-        obs.append(_iter_admissible(adm_lines))
+    if any(l.startswith("gnext") for l in adm_lines):
+        line, exact, diverge = _iter_admissible(adm_lines, adm_expect)
+        obs.append(line)
         stats["iter_cases"] = 1
+        stats["gen_exact"] = exact
+        stats["gen_diverge"] = diverge
     else:
         obs.append("iter-adm:ok")
     removed = stats.get("removed", 0) > 0
